@@ -6,4 +6,44 @@ package server
 
 //@ func New
 //@   assigns nothing
+//@   at-call ServerUserPermissions [own-name] arg0 == name
+//@   ensures [own-rules] implies(isnil(result1) && has(config.Server.Permissions.Users, name), result0.permissions == config.Server.Permissions.Users[name])
+//@   ensures [default-rules] implies(isnil(result1) && !has(config.Server.Permissions.Users, name), result0.permissions == config.Server.Permissions.Default)
 //@   ensures [user-or-error] implies(isnil(result1), result0 != nil && result0.Name == name) && implies(!isnil(result1), result0 == nil)
+
+// ---- file permissions (C08) -------------------------------------------------------------------------
+// permVerdict(rules, k, path, T): over the first k rules, the last rule of type T
+// whose pattern matches path decides ('!' marks a deny pattern); no match means
+// deny. A rule's type is the lower case word in front of its first ':' if there
+// is one, else "readfiles"; any other ':' belongs to the pattern.
+//@ func isPermissionType
+//@   assigns nothing
+//@   loop 1 invariant [scanned] 0 <= i && i <= len(s) && forall(j, 0, i, s[j] >= 97 && s[j] <= 122)
+//@   ensures [is-lower-case-word] result == (len(s) > 0 && forall(j, 0, len(s), s[j] >= 97 && s[j] <= 122))
+//@   ensures [names-the-predicate] result == typeName(s)
+
+//@ func (*User).iteratePaths
+//@   assigns nothing
+//@   loop 1 invariant [bounds] -1 <= rangeindex && rangeindex < len(u.permissions)
+//@   loop 1 invariant [last-match-wins] hasPermission == permVerdict(u.permissions, rangeindex + 1, cleanPath, permissionType)
+//@   ensures [last-match-wins] implies(isnil(result1), result0 == permVerdict(u.permissions, len(u.permissions), cleanPath, permissionType))
+//@   ensures [error-denies] implies(!isnil(result1), !result0)
+
+// Allowed only if the resolved path is a regular file and the rules allow it.
+//@ func (*User).hasFilePermission
+//@   assigns nothing
+//@   ensures [regular-file-only] implies(result0, ufb_mode_regular(uf_lstat_mode(cleanPath)) && isnil(result1))
+//@   ensures [rules-decide] implies(result0, permVerdict(u.permissions, len(u.permissions), cleanPath, permissionType))
+//@   ensures [error-denies] implies(!isnil(result1), !result0)
+
+// The path the rules are matched against is the fully resolved absolute path.
+// g_permitted / g_permittedStr: ghost record of the last path a check allowed.
+//@ func (*User).HasFilePermission
+//@   assigns g_permitted, g_permittedStr
+//@   effect g_permitted == ite(hasPermission, 1, old(g_permitted))
+//@   effect g_permittedStr == ite(hasPermission, filePath, old(g_permittedStr))
+//@   let resolved == ufs_abs(ufs_evalsymlinks(filePath))
+//@   let background == (u.Name == config.ScheduleUser || u.Name == config.ContinuousUser)
+//@   ensures [regular-file-only] implies(hasPermission && !background, ufb_mode_regular(uf_lstat_mode(resolved)))
+//@   ensures [rules-decide] implies(hasPermission && !background, permVerdict(u.permissions, len(u.permissions), resolved, permissionType))
+//@   at-call .hasFilePermission [resolved-path] arg1 == ufs_abs(ufs_evalsymlinks(filePath)) && arg2 == permissionType
